@@ -377,6 +377,11 @@ func scalarSet(a *algoSpec) []*big.Int {
 		}
 		set = append(set, new(big.Int).Lsh(big.NewInt(0x0102), 8*j))
 	}
+	// every bit position: 2^k-1, 2^k, 2^k+1 (limb, word, window and "short scalar" boundaries of the
+	// scalar multiplication by the generator)
+	for k := uint(1); k <= 255; k++ {
+		set = append(set, pow2(k, -1), pow2(k, 0), pow2(k, 1))
+	}
 	seen := map[string]bool{}
 	var out []*big.Int
 	for _, k := range set {
@@ -408,7 +413,7 @@ func main() {
 		blsStride, nContents = 1, 12 // 8 further SHA-256-chain contents
 	}
 	run.Set("rule", fmt.Sprintf("algorithms {BLS, P-256, secp256k1} x every seed length 0..300 (plus the nil seed) x contents {zeros, 0xff, counter, SHA-256 chain of VERIF_SEED; thorough: 8 more chains}: outside 32..256 an invalid-inputs error is required, inside the Encode() bytes must equal the reference derivation (BLS: IETF KeyGen draft-05 2.3 over refsha2.HKDF256 incl. salt re-hash loop; ECDSA: HKDF to 48 bytes, mod (n-1) + 1), be in [1, order-1], and a second call must give the same bytes. "+
-		"Public keys: every generated ECDSA key and every generated BLS key whose seed length is a multiple of %d (and lengths 32, 33, 255, 256), every decoded scalar of {1,2,255,256,2^128,order-1,order-2, 2^232+5, 2^240+7, 2^247+1, ..., all counts 1..31 of leading zero bytes with first byte 0x01 and 0x80, byte-sparse scalars b*256^j for every byte position j and b in {1,5,0x55,0x73,0xff,0x0102}}, every aggregated BLS key of a fixed list of scalar tuples (incl. sum = 0 and sum wrapping mod r) and, for tuples of 2-4 keys, under EVERY pattern of which input keys already had PublicKey() called (lazy public-key cache): PublicKey().Encode() = scalar x generator by refecdsa/refbls and repeated PublicKey() calls are Equal. "+
+		"Public keys: every generated ECDSA key and every generated BLS key whose seed length is a multiple of %d (and lengths 32, 33, 255, 256), every decoded scalar of {1,2,255,256,2^128,order-1,order-2, 2^232+5, 2^240+7, 2^247+1, ..., all counts 1..31 of leading zero bytes with first byte 0x01 and 0x80, byte-sparse scalars b*256^j for every byte position j and b in {1,5,0x55,0x73,0xff,0x0102}, 2^k-1, 2^k, 2^k+1 for every bit position k=1..255}, every aggregated BLS key of a fixed list of scalar tuples (incl. sum = 0 and sum wrapping mod r) and, for tuples of 2-4 keys, under EVERY pattern of which input keys already had PublicKey() called (lazy public-key cache): PublicKey().Encode() = scalar x generator by refecdsa/refbls and repeated PublicKey() calls are Equal. "+
 		"A case is distinct by (algorithm, seed length, content) for in-range derivations, by (algorithm, scalar) for decoded keys, by scalar tuple for aggregated keys; rejected lengths are not counted as distinct.", blsStride))
 	run.Set("seed_lengths", "0..300")
 	run.Set("seed_contents", []string{"zeros", "0xff", "counter", "seed-derived"})
